@@ -170,6 +170,8 @@ class Check:
                         "RTCMMessage._set_attribute_group", "RTCMMessage._set_attribute_single", "RTCMMessage._getsatcellmaps", "RTCMMessage._get_dict",
                         "RTCMMessage._do_unknown", "RTCMMessage.identity", "RTCMMessage.__setattr__"]),
             "helpers": ("SrcOHelpers.v", ["SrcHelpers_inst.v"], None, ["rtcmhelpers.att2idx", "rtcmhelpers.att2name", "rtcmhelpers.datadesc"]),
+            "arr": ("SrcOArr.v", ["SrcArr_inst.v"], "SrcArr_tables_inst.v", ["rtcmhelpers.parse_msm"]),
+            "arr2": ("SrcOArr2.v", ["SrcArr2_inst.v"], "SrcArr2_tables_inst.v", ["rtcmhelpers.parse_4076_201"]),
             "msg": ("SrcOMsg.v", ["SrcMsg_inst.v"], "SrcMsg_tables_inst.v",
                     ["RTCMMessage.__init__", "RTCMMessage.__setattr__", "RTCMMessage.identity", "RTCMMessage.payload", "RTCMMessage.ismsm",
                      "RTCMMessage._get_dict", "RTCMMessage._do_unknown", "RTCMMessage.serialize"])}
